@@ -54,8 +54,15 @@ type snapshot struct {
 	// EDSResourceNames are the names on the resource wrappers of the two answers
 	EndpointsWarm    []*endpoint.ClusterLoadAssignment
 	EDSResourceNames [2][]string
-	Crashes          []finding // panics and undecodable resources seen while generating
-	Stage            map[string]bool
+	// RouteOrders: the answers of the route generator to the same set of names handed over in other orders
+	RouteOrders []routeOrder
+	Crashes     []finding // panics and undecodable resources seen while generating
+	Stage       map[string]bool
+}
+
+type routeOrder struct {
+	Order  []string
+	Routes []*route.RouteConfiguration
 }
 
 // rdsNamesOf lists the route configuration names a listener set subscribes to: every
@@ -211,6 +218,38 @@ func check(s *snapshot) []finding {
 	}
 	for _, rc := range s.Routes {
 		checkRouteConfig("RDS", rc, rc.GetName())
+	}
+	// the same request under other orders of the names: names and closure always; the full set of
+	// route checks for every route configuration that differs from the first answer
+	if len(s.RouteOrders) > 0 {
+		first := map[string][]byte{}
+		mo := proto.MarshalOptions{Deterministic: true}
+		for _, rc := range s.Routes {
+			first[rc.GetName()], _ = mo.Marshal(rc)
+		}
+		for _, ro := range s.RouteOrders {
+			names = nil
+			have := map[string]bool{}
+			for _, rc := range ro.Routes {
+				names = append(names, rc.GetName())
+				have[rc.GetName()] = true
+			}
+			dupNames("RDS", names)
+			for _, n := range s.RDSRequested {
+				if !have[n] {
+					add("rds-not-produced", "RDS", nameClass("RDS", n), n, fmt.Sprintf("route configuration %q is missing from the answer to a request naming %v in this order", n, ro.Order))
+				}
+			}
+			for _, rc := range ro.Routes {
+				b, _ := mo.Marshal(rc)
+				if prev, ok := first[rc.GetName()]; ok && string(prev) == string(b) {
+					continue
+				}
+				where := fmt.Sprintf("%s (names requested in the order %v)", rc.GetName(), ro.Order)
+				checkRouteConfig("RDS", rc, where)
+				pgv("RDS", where, rc, add)
+			}
+		}
 	}
 
 	// 4. listeners: filter chain matches, inline route configurations, tcp weights
